@@ -4,7 +4,7 @@ from vlib import core, kexec, pool, net, refksi as R, refserver as S, gen
 
 LEVEL = 'exploration'
 KEY = b'anon'
-OUTCOMES = ['valid', 'err_status', 'err_pdu', 'timeout', 'close', 'refuse']
+OUTCOMES = ['valid', 'err_status', 'err_pdu', 'timeout', 'close', 'refuse', 'valid_close']      # valid_close: the valid reply and the end of the connection arrive together
 ST_RESP, ST_CONF, ST_ERR, ST_NOTICE = 3, 4, 5, 6
 
 
@@ -165,10 +165,13 @@ def scenario_requests(sess, rng, r, nep, plan, label):
         info, rq = reqs[i]
         if rq.get('hash') != h:
             ha.viol('forwarded-request-differs', 'endpoint %d got another hash' % (i + 1))
-        if o == 'valid':
+        if o in ('valid', 'valid_close'):
             s = gen.gen_signature(random.Random('%s/%d' % (label, i)), first_corr=0, with_cal=False, rfc=False, doc_imprint=h, time=1500000000, nchains=1)
             sigs[i] = s.enc().hex()
             c('net_push %d %s' % (info['fd'], S.aggr_response(rq, s, KEY).hex()))
+            if o == 'valid_close':
+                c('net_eof %d' % info['fd'])      # the client sees the reply bytes and the end of the stream in the same run
+                r.count('ha_valid_reply_then_close')
             finished[i] = 'valid'
         elif o == 'err_status':
             c('net_push %d %s' % (info['fd'], S.aggr_response(rq, None, KEY, status=0x101, errmsg='bad').hex()))
@@ -201,7 +204,7 @@ def scenario_requests(sess, rng, r, nep, plan, label):
         c('async_free 0')
         return
     st, tag, sg, herr, fin_at_return = user[0]
-    valid_eps = [i for i in order if outcomes[i] == 'valid']
+    valid_eps = [i for i in order if outcomes[i] in ('valid', 'valid_close')]
     if st == ST_RESP:
         r.count('ha_returned_response')
         if not valid_eps:
@@ -613,5 +616,5 @@ def run(ctx):
     ctx.exhaustive = False
     c = ctx.counters
     if not ctx.violations and not ctx.known_printed:
-        ctx.require(c.get('ha_request_scenarios', 0) >= 1300 and c.get('ha_config_scenarios', 0) >= 100 and c.get('ha_partial_forward_scenarios', 0) >= 100 and c.get('ha_forward_completed', 0) >= 40, 'scenarios executed')
+        ctx.require(c.get('ha_request_scenarios', 0) >= 1300 and c.get('ha_config_scenarios', 0) >= 100 and c.get('ha_partial_forward_scenarios', 0) >= 100 and c.get('ha_forward_completed', 0) >= 40 and c.get('ha_valid_reply_then_close', 0) >= 50, 'scenarios executed')
         ctx.require(c.get('ha_returned_response', 0) > 300 and c.get('ha_returned_error', 0) > 100, 'both response and error completions observed')
